@@ -221,6 +221,22 @@ def r3_guard(repo):
                  ".keys()" in src(c.generators[0].iter) for c in comps)
     obs.append(Ob("C03-R3", "candidates-are-omittable-graph-nodes", _w(f), ok,
                   "the combinations must be drawn from [n for n in type_graph.keys() if n.is_omittable()]"))
+    # the function's graph is completed with the global graph, global entries taking precedence
+    for q_ in (TE + ".visit_func_decl", "src.transformations.type_overwriting.TypeOverwriting._add_candidate_method"):
+        h = repo.fn(q_)
+        res = [n for n in iter_own_nodes(h.node) if isinstance(n, ast.Assign) and isinstance(n.value, ast.Call) and
+               call_name(n.value) == "result" and isinstance(n.targets[0], ast.Name)]
+        okm = len(res) == 1
+        if okm:
+            gname = res[0].targets[0].id
+            ups = [c for c in calls_in(h.node) if call_name(c) == "update" and src(c.func.value) == gname]
+            okm = len(ups) == 1 and src(ups[0].args[0]) == "self.global_type_graph" and not flat_guards(ups[0]) and \
+                ups[0].lineno > res[0].lineno and \
+                len(cfg_of(h.node).defs_reaching(gname, ups[0])) == 1
+        obs.append(Ob("C03-R3", "%s:function-graph-updated-with-the-global-graph" % h.name, _w(h), okm,
+                      "the graph analysed for a function must be `t_an.result()` updated with self.global_type_graph (for a "
+                      "global variable the entry built from its own declaration - declared type and initialiser - must win "
+                      "over the partial entry a function that assigns it contributes)"))
     # helpers only rebind keys
     for q in (TDA + ".is_combination_feasible", TDA + "._handle_declaration_node", TDA + "._handle_type_inst_call_node"):
         h = repo.fn(q)
@@ -464,7 +480,7 @@ def rules():
     return [
         RuleSpec("C03-R1", "write set of the erasure mutation's call-graph closure", 8, r1_write_set),
         RuleSpec("C03-R2", "bodies of the two mutators", 5, r2_mutator_bodies),
-        RuleSpec("C03-R3", "writes guarded by feasibility of the applied combination on a fresh graph copy", 7, r3_guard),
+        RuleSpec("C03-R3", "writes guarded by feasibility of the applied combination on a fresh graph copy", 9, r3_guard),
         RuleSpec("C03-R4", "bookkeeping field is not read by translators / equality", 1, r4_bookkeeping_unread),
         RuleSpec("C03-R5", "visitors return their node (identity rewrite)", 5, r5_identity_visitors),
         RuleSpec("C03-R6", "what is omittable", 7, r6_omittable),
@@ -569,6 +585,14 @@ def _v_receiver_inherits_expected(tree):
     V.remove_stmt(tree, sts[0])
 
 
+def _v_merge_order(tree):
+    f = _vf(tree)
+    st = V.one([n for n in f.body if isinstance(n, ast.Assign) and ast.unparse(n.value) == "t_an.result()"])
+    up = V.one([n for n in f.body if isinstance(n, ast.Expr) and V.is_call_named(n.value, "update")])
+    st.value = V.parse_expr("{**self.global_type_graph, **t_an.result()}")
+    V.remove_stmt(tree, up)
+
+
 def _t_rename(tree):
     f = _vf(tree)
     V.rename_local(f, "c_type_graph", "graph_copy")
@@ -593,6 +617,7 @@ def variants():
         V.Variant("feasibility: a reachable subtype counts as the same type", "src/analysis/type_dependency_analysis.py", _v_feasible_subtype_ok, {"C03-R7"}),
         V.Variant("omitting a declaration keeps its declared edges", "src/analysis/type_dependency_analysis.py", _v_keep_declared, {"C03-R7"}),
         V.Variant("receiver of a call inherits the expected type", "src/analysis/type_dependency_analysis.py", _v_receiver_inherits_expected, {"C03-R8"}),
+        V.Variant("function graph entries override the global graph", te, _v_merge_order, {"C03-R3"}),
         V.Variant("twin: rename locals in visit_func_decl", te, _t_rename, None, twin=True),
         V.Variant("twin: whole tree reformatted by ast.unparse", None, None, None, twin=True),
     ]
